@@ -1,5 +1,5 @@
 # replay of a bounded stand-in violation (C09/C10): re-run native/c09_engine.py
 import sys
-print("fock [measure q2 and q1, Del q0, feed q1's outcome to q2]: run([p1, p2]) gives <x> = -0.4000 on the fed-forward mode, the selected outcome is 0.7")
+print('C10: conjugate(q) of a measured parameter with outcome (-0.25-1.5j) evaluates to (-0.25-1.5j), the function of the outcome is (-0.25+1.5j)')
 print('REPLAY-VIOLATION')
 sys.exit(1)
